@@ -71,6 +71,10 @@ def _check_main(run, P):
              "default, exactly one value per name on every path, unknown keywords rejected",
              minimum=5)
     run.do(resolve_rule, run, P, "C09.resolve")
+    run.rule("C09.same_tree", "inference looks at the expression the interpreter evaluates: a "
+             "simplifying rewrite (pymbolic flatten) that inference applies to a statement's "
+             "expression is applied by the statement's constructor too", minimum=1)
+    run.do(_same_tree, run, P)
     run.rule("C09.const", "a constant is complex by its *type*: the test is an "
              "isinstance() over the built-in and numpy's complex scalar types", minimum=1)
     run.do(_const, run, P)
@@ -527,6 +531,31 @@ def _scalar_results(run, P, c, grk, fn, rets, prets, i, n_pos, ident):
                why="user-type values may be represented by arrays of any rank: a contraction "
                    "of the last axis only (np.inner, np.dot) returns a matrix where the "
                    "kind says scalar")
+
+
+def _same_tree(run, P):
+    F = P.func(f"{DATA}.SymbolKindFinder.__call__")
+    sites = [x for x in ast.walk(F.node) if isinstance(x, ast.Call) and dotted(x.func) in ("flatten",
+             "pymbolic.flatten") and x.args and isinstance(x.args[0], ast.Attribute)
+             and x.args[0].attr in ("expression", "rhs")]
+    A = P.func("dagrt.language.Assign.__init__")
+    stored = None
+    for x in ast.walk(A.node):
+        if isinstance(x, ast.keyword) and x.arg == "rhs":
+            stored = x.value
+    flat_at_construction = isinstance(stored, ast.Call) and dotted(stored.func) in ("flatten",
+                                                                                    "pymbolic.flatten")
+    if not sites and not flat_at_construction:
+        run.ob("C09.same_tree", F, F.node, True,
+               construct="neither inference nor Assign.__init__ flattens", why="same tree")
+        return
+    run.ob("C09.same_tree", A, stored if stored is not None else A.node,
+           flat_at_construction or not sites,
+           construct=f"inference flattens the right-hand side ({len(sites)} site(s)); Assign stores "
+                     f"rhs={norm(stored, 30) if stored is not None else '?'}",
+           why="flatten folds 0*x and 0/x to the integer 0: inferred from the flattened tree the "
+               "variable is a real scalar, evaluated from the tree as written it is an array of "
+               "zeros")
 
 
 def resolve_rule(run, P, rule):
